@@ -46,6 +46,7 @@ class Gen:
         self.in_opt_fn = False
         self.protected = set()
         self.in_for = 0
+        self.force_seq = False
         self.kconsts = []
 
     # ------------------------------------------------------------ helpers
@@ -369,16 +370,17 @@ class Gen:
             if n == 0:
                 # an empty literal needs a context that fixes the element type
                 return {"k": "list", "es": [self.expr(ty[1], d - 1)]}
-            return {"k": "list", "es": [self.expr(ty[1], d - 1) for _ in range(n)]}
+            return {"k": "list", "es": self.seq_exprs([ty[1]] * n, d - 1, False)}
         if self.kind_of(ty) == "record":
             order = list(self.fields_of(ty))
             # a literal may list the fields in any order; they are evaluated in the order written
             if r.random() < 0.5:
                 r.shuffle(order)
-            fs = [[f, self.expr(ft, d - 1, True)] for f, ft in order]
+            fes = self.seq_exprs([ft for _, ft in order], d - 1)
+            fs = [[f, e] for (f, _), e in zip(order, fes)]
             return {"k": "rec", "name": ty[1] if r.random() < 0.7 and not self.types[ty[1]].get("anon") else "", "fs": fs}
         v, ts = r.choice(self.variants_of(ty))
-        return {"k": "ctor", "en": ty[1], "v": v, "args": [self.expr(t, d - 1, True) for t in ts]}
+        return {"k": "ctor", "en": ty[1], "v": v, "args": self.seq_exprs(ts, d - 1)}
 
     # ------------------------------------------------------------ expressions
     def maybe_emit(self, ty, e, p=0.3):
@@ -440,8 +442,7 @@ class Gen:
                 recv = var(n)
                 y = self.expr(ty, d - 1, True) if ty not in FLOAT_TYS else self.fexpr(ty)
                 if n not in self.protected and r.random() < 0.5:
-                    newv = self.expr(ty, max(d - 2, 0), True) if ty not in FLOAT_TYS else self.fleaf(ty)
-                    y = block([{"k": "set", "p": [n], "e": newv}], y)
+                    y = block([{"k": "set", "p": [n], "e": self.other_value(n, ty, d)}], y)
             else:
                 # the receiver fixes no type for a literal: literals carry their suffix there
                 recv = self.expr(ty, d - 1, False) if ty not in FLOAT_TYS else self.fexpr(ty)
@@ -506,7 +507,7 @@ class Gen:
             if not cands or not self.has("calls") or self.in_for > 0:
                 return self.leaf(ty, ctx_fixed)
             n = r.choice(cands)
-            return {"k": "call", "f": n, "args": [self.expr(t, d - 1, True) for t in self.fns[n]["pts"]]}
+            return {"k": "call", "f": n, "args": self.seq_exprs(self.fns[n]["pts"], d - 1)}
         if f == "field":
             # a record variable with a field of this type
             cands = []
@@ -568,6 +569,38 @@ class Gen:
                 return self.leaf(ty, ctx_fixed)
             return {"k": "lcall", "m": "len", "r": var(r.choice(cands)), "args": []}
         return self.leaf(ty, ctx_fixed)
+
+    def seq_exprs(self, tys, d, ctx_fixed=True):
+        """operands of a construct that evaluates them left to right (call arguments, constructor arguments, record
+        fields in the order written, list elements).  Sometimes an earlier operand is a plain read of a variable and a
+        later operand is a block that first assigns to that variable: the earlier operand keeps the value read then."""
+        r = self.r
+        es = [self.expr(t, d, ctx_fixed) for t in tys]
+        if self.has("exprstmt") and len(tys) >= 2 and (r.random() < 0.3 or self.force_seq):
+            self.force_seq = False
+            i = r.randrange(len(tys) - 1)
+            j = r.randrange(i + 1, len(tys))
+            vs = [n for n in self.vars_of(tys[i]) if n not in self.protected]
+            if vs and tys[i] != "Tr":
+                n = r.choice(vs)
+                es[i] = var(n) if r.random() < 0.7 or not self.emit_ok(tys[i]) else host("emit", tys[i], self.tag(), [var(n)])
+                es[j] = block([{"k": "set", "p": [n], "e": self.other_value(n, tys[i], d)}], es[j])
+        return es
+
+    def other_value(self, n, ty, d):
+        """an expression of type ty that (nearly always) differs from the current value of variable n"""
+        r = self.r
+        if ty in INT_TYS:
+            return binop("add", ty, var(n), ilit(ty, r.choice([1, 1, 2, 3])))       # wraps: always another value
+        if ty == "bool":
+            return un("not", "bool", var(n))
+        if ty == "str":
+            return binop("add", "str", var(n), lit("str", A.str_val("+")))
+        if isinstance(ty, str) and self.emit_ok(ty):
+            return self.input(ty)
+        if isinstance(ty, list) and ty[0] == "named":
+            return self.construct(ty, 1)
+        return self.expr(ty, max(d - 1, 0), True)
 
     def recv_reassigning_arg(self, n, t, d):
         """argument of a method call on the list variable n; sometimes a block that first assigns another list to n:
@@ -716,7 +749,7 @@ class Gen:
         if self.has("copymut"):
             forms += ["copymut"] * 3 + ["observe"] * 2
         if self.has("exprstmt"):
-            forms += ["exprstmt"] * 2
+            forms += ["exprstmt"] * 2 + ["seqobs"] * 2
         if d > 0:
             forms += ["if", "cset", "setfield"]
             if self.has("loops"):
@@ -734,7 +767,7 @@ class Gen:
             # call one of the functions generated so far, whatever it returns
             name = r.choice([n for n, fn in self.fns.items() if not fn.get("special")])
             fn = self.fns[name]
-            call = {"k": "call", "f": name, "args": [self.expr(t, max(d - 1, 0), True) for t in fn["pts"]]}
+            call = {"k": "call", "f": name, "args": self.seq_exprs(fn["pts"], max(d - 1, 0))}
             if fn["rt"] == "unit":
                 return call
             v = self.fresh()
@@ -808,6 +841,35 @@ class Gen:
             if f == "observe":
                 return block(self.observe(var(n), t, 3))
             return self.copymut(n, t, d)
+        if f == "seqobs":
+            # a value built from operands evaluated left to right, one of which assigns to a variable that an earlier
+            # operand read; every leaf of the result is observed afterwards
+            tys = [t for t in self.record_types()]
+            for (_, t) in self.all_vars():
+                if isinstance(t, list) and t[0] == "named" and t not in tys and self.kind_of(t) == "enum":
+                    tys.append(t)
+            tys = [t for t in tys if (self.kind_of(t) == "record" and len(self.fields_of(t)) >= 2) or
+                   (self.kind_of(t) == "enum" and any(len(ts) >= 2 for _, ts in self.variants_of(t)))]
+            if self.has("list"):
+                tys.append(["list", r.choice([t for t in self.scalar_tys() if t not in FLOAT_TYS] or ["i32"])])
+            if not tys:
+                return self.stmt_emit(d)
+            ty = r.choice(tys)
+            self.force_seq = True
+            if ty[0] == "list":
+                e = {"k": "list", "es": self.seq_exprs([ty[1]] * r.randint(2, 3), max(d - 1, 0), False)}
+            elif self.kind_of(ty) == "enum":
+                v, ts = r.choice([(v, ts) for v, ts in self.variants_of(ty) if len(ts) >= 2])
+                e = {"k": "ctor", "en": ty[1], "v": v, "args": self.seq_exprs(ts, max(d - 1, 0))}
+            else:
+                e = self.construct(ty, max(d, 1))
+            self.force_seq = False
+            n = self.fresh()
+            ss = [let(n, ty, e)] + self.observe(var(n), ty, 3)
+            for (m, t) in self.all_vars():       # and the variables the operands may have assigned to
+                if isinstance(t, str) and self.emit_ok(t) and r.random() < 0.3:
+                    ss.append(host("emit", t, self.tag(), [var(m)]))
+            return block(ss)
         if f == "exprstmt":
             # an expression used as a statement: evaluated for its effects, the value is discarded
             ty = self.random_ty(1)
@@ -883,8 +945,10 @@ class Gen:
                 body = [if_(guard, block([{"k": "lcall", "m": "push", "r": var(l), "args": [var(x)]}])),
                         host("emit", ety, self.tag(), [var(x)])]
                 return {"k": "for", "n": x, "e": var(l), "b": block(body)}
+            lv = None
             if cands and r.random() < 0.6:
-                src = var(r.choice(cands))
+                lv = r.choice(cands)
+                src = var(lv)
             else:
                 src = {"k": "list", "es": [self.expr(ety, d - 1) for _ in range(r.randint(1, 3))]}
             self.push()
@@ -894,6 +958,13 @@ class Gen:
             body = self.stmts(r.randint(1, 2), d - 1)
             self.in_for -= 1
             self.pop()
+            if lv is not None and lv not in self.protected and self.has("exprstmt") and r.random() < 0.4:
+                # the body gives the iterated VARIABLE another list: the loop goes on over the list it started with
+                others = [m for m in cands if m != lv]
+                new = var(r.choice(others)) if others and r.random() < 0.5 else \
+                    {"k": "list", "es": [self.expr(ety, 0, True) for _ in range(r.randint(0, 3))] or [self.expr(ety, 0, True)]}
+                body.insert(r.randrange(len(body) + 1), {"k": "set", "p": [lv], "e": new})
+                body.append(host("emit", ety, self.tag(), [var(x)]))
             return {"k": "for", "n": x, "e": src, "b": block(body)}
         if f == "ret":
             e = self.expr(self.cur_rt, d - 1, True) if self.cur_rt != "unit" else None
